@@ -11,7 +11,7 @@ for p in sorted(glob.glob(os.path.join(C.VERIF, "harness", "props", "c*.py"))):
 errs = C.regenerate(sorted(mods))
 for m, e in errs.items():
     print("translator", m, "aborted:", e)
-ok, out = C.make(["all"], timeout=3000)
+ok, out = C.make(["all"], timeout=1500)     # a clean build of everything takes under a minute on 16 cores
 print(out[-1500:])
 print("setup build", "OK" if ok else "had failures (the affected checks will report them)")
 sys.exit(0)
